@@ -446,6 +446,62 @@ def struct_loop(rep, rule, prog):
             rep.ok(rule, key, 'every loop trip passes the recursive skip', rfb[0].loc())
 
 
+HEADER_LEN = {
+    'read_struct_begin': ('struct_begin_len',), 'read_struct_end': ('struct_end_len',),
+    'read_field_begin': ('field_begin_len', 'field_stop_len'), 'read_field_end': ('field_end_len',),
+    'read_list_begin': ('list_begin_len',), 'read_list_end': ('list_end_len',),
+    'read_set_begin': ('set_begin_len',), 'read_set_end': ('set_end_len',),
+    'read_map_begin': ('map_begin_len',), 'read_map_end': ('map_end_len',),
+}
+
+
+def default_skipper_counts_headers(rep, rule, prog):
+    """the shared skipper reports how many bytes it consumed (retention cuts the unknown field out by that count): after
+    every framing read (`read_field_begin`, `read_list_begin`, ...) the matching `*_len` is taken before the next framing
+    read or the Ok exit, on every path - including the STOP branch of the struct loop"""
+    sk = find_skippers(prog)
+    b = sk.get('sync_default')
+    if b is None:
+        rep.anchor_missing(rule, 'default skipper')
+        return
+    reads = {}
+    lens = {}
+    for cs in b.calls():
+        if cs.name in HEADER_LEN:
+            reads[cs.bb] = cs
+        for k, v in HEADER_LEN.items():
+            if cs.name in v:
+                lens.setdefault(cs.bb, set()).add(cs.name)
+    oks = set(o[1] if isinstance(o, tuple) else o for o in _ok_exit_blocks(b))
+    n = 0
+    for rb, cs in sorted(reads.items()):
+        n += 1
+        want = set(HEADER_LEN[cs.name])
+        key = '%s|default skipper counts %s' % (rule, cs.name)
+        # search from the Continue side of the read's `?`
+        seen, st, bad = set(), [(y, None) for y in feasible_succs(b, rb)], None
+        while st and bad is None:
+            x, e = st.pop()
+            if (x, e) in seen:
+                continue
+            seen.add((x, e))
+            if lens.get(x, set()) & want:
+                continue
+            if x in reads and x != rb or x in oks or (x == rb):
+                bad = x
+                break
+            e2 = _err_local_after(b, x, e)
+            for y in feasible_succs(b, x, e2):
+                st.append((y, e2))
+        if bad is None:
+            rep.ok(rule, key, 'followed by %s on every path' % ' / '.join(sorted(want)), cs.loc())
+        else:
+            what = 'the Ok exit' if bad in oks else reads[bad].name if bad in reads else 'the next round'
+            rep.bad(rule, key, cs.loc(), 'the shared skipper can go from %s to %s without adding %s to the count it returns: the reported length is short, so a retained unknown field loses its last byte(s) (and the unchecked reader resumes inside it)' % (cs.name, what, ' / '.join(sorted(want))))
+    if n < 10:
+        rep.anchor_missing(rule, 'framing reads in the default skipper (found %d, expected 10)' % n)
+
+
 def default_skipper_widths(rep, rule, prog, cg):
     """the constants of the inherited fixed-width skipper equal the *_len constants of every protocol that inherits it"""
     import thrift_pairs as tp
